@@ -235,6 +235,15 @@ pub enum Event {
         shutting_down: bool,
         level0_files: usize,
     },
+    /// a group commit was formed while more than one writer was queued: the queue as the leader
+    /// saw it, one entry per writer (approximate batch size, synchronous flag, has a batch, number
+    /// of operations), the queue index of the last writer that will be popped with the leader, and
+    /// the number of operations in the group's batch
+    Group {
+        queue: Vec<(usize, bool, bool, usize)>,
+        last: usize,
+        operations: usize,
+    },
 }
 
 static EVENTS: parking_lot::Mutex<Vec<(String, Event)>> = parking_lot::Mutex::new(Vec::new());
